@@ -10,7 +10,7 @@ use crate::common::*;
 use lrpar::RecoveryKind;
 use rayon::prelude::*;
 use serde_json::json;
-use vcore::gram::{RefGrammar, all_inputs, family_gc, family_lalr3, family_wide, input_alphabet, inputs_over, family_empty, family_chains, family_empty2, family_expr, family_lalr, family_lalr2, family_seeds, family_ternary, neighbourhood};
+use vcore::gram::{RefGrammar, all_inputs, family_pager, family_gc, family_lalr3, family_wide, input_alphabet, inputs_over, family_empty, family_chains, family_empty2, family_expr, family_lalr, family_lalr2, family_seeds, family_ternary, neighbourhood};
 use vcore::real::{Built, Drv, HInput, build, parse};
 use vcore::refs::{Earley, Lr1, analyse};
 use vcore::report::Ctx;
@@ -38,6 +38,9 @@ struct Stats {
     states: u64,
     c04_cases: u64,
     c04_delayed_detection: u64,
+    // tables on which the construction re-processed a state into new states / garbage-collected
+    pager_new_while_reprocessing: u64,
+    pager_gc: u64,
 }
 
 impl Stats {
@@ -56,6 +59,8 @@ impl Stats {
         self.states += o.states;
         self.c04_cases += o.c04_cases;
         self.c04_delayed_detection += o.c04_delayed_detection;
+        self.pager_new_while_reprocessing += o.pager_new_while_reprocessing;
+        self.pager_gc += o.pager_gc;
         self
     }
 }
@@ -72,7 +77,16 @@ fn check_grammar(ctx: &Ctx, mode: Mode, g: &RefGrammar, n: usize, only_input: Op
 fn check_grammar_inner(ctx: &Ctx, mode: Mode, g: &RefGrammar, n: usize, only_input: Option<&Vec<usize>>) -> Stats {
     let mut st = Stats::default();
     st.grammars = 1;
-    let b: Built<u32> = match build(g) {
+    lrtable::verif_hooks::reset();
+    let built = build(g);
+    let (_, pnew, pgc) = lrtable::verif_hooks::pager_counters();
+    if pnew > 0 {
+        st.pager_new_while_reprocessing = 1;
+    }
+    if pgc > 0 {
+        st.pager_gc = 1;
+    }
+    let b: Built<u32> = match built {
         Ok(b) => b,
         Err(vcore::real::BuildErr::Grammar(m)) => machinery(&format!("the harness rendered a grammar the front end rejects: {}: {}", g.short(), m)),
         Err(vcore::real::BuildErr::Names(m)) => machinery(&format!("harness cannot map names for {}: {}", g.short(), m)),
@@ -308,6 +322,7 @@ fn grammar_space(ctx: &Ctx, mode: Mode) -> (Vec<RefGrammar>, Vec<(String, usize)
         ("F-lalr2", if mode == Mode::C02 { family_lalr2() } else { vec![] }),
         ("F-lalr3 (two-item kernels reached over paths of different lengths)", if mode == Mode::C04 && ctx.quick() { vec![] } else { family_lalr3(ctx.quick()) }),
         ("F-gc (tables whose construction strands a state) with edit-distance-1 neighbourhoods", family_gc()),
+        ("F-pager (stored: every grammar of eight universes up to U(2,2,3,4,8) / U(2,2,2,5,9) whose construction re-processes into new states or garbage-collects)", family_pager().into_iter().map(|m| m.g).collect()),
         ("F-ternary", family_ternary()),
         ("F-chains", family_chains()),
         ("F-empty", family_empty().into_iter().chain(family_empty2()).collect()),
@@ -433,6 +448,8 @@ pub fn run(ctx: Ctx, mode: Mode) -> i32 {
         "accepted": stats.accepted,
         "rejected": stats.rejected,
         "table_input_pairs_excluded_nonterminating": stats.loops_excluded,
+        "tables_whose_construction_garbage_collects_states": stats.pager_gc,
+        "tables_whose_construction_creates_states_while_reprocessing": stats.pager_new_while_reprocessing,
         "input_length_bound": format!("<= {} for <= 2 tokens, {} for 3, 4 for 4-5, 3 beyond", n_small + 1, n_small),
     });
     ctx.finish(cov, &["Earley recogniser / viable-prefix oracle and canonical LR(1) are the references (cross-validated against brute-force language enumeration in the self-test)", "(table, input) pairs on which the plain LR loop does not return are excluded here and handled by C07"], true)
